@@ -22,6 +22,7 @@ def scenarios(tier):
     L.append((SC.scn("alias-redo-j2", w["one"], ["redo --no-log -j2 x ./x"], visible=SC.CORE), 0 if q else 1))
     # (4) two sub-redos that want each other's first target second
     L.append((SC.scn("cross-j2", w["cross"], ["redo --no-log -j2 p q"], visible=SC.TOKENS + ["lock-try"]), 1 if q else 2))
+    L.append((SC.scn("cross-src-j2", w["cross-src"], ["redo --no-log -j2 p q"], visible=SC.TOKENS + ["lock-try"]), 1 if q else 2))
     # (5) all-success graphs at -j2 / -j3
     L.append((SC.scn("diamond-j2", w["diamond"], ["redo --no-log -j2 top"], visible=SC.TOKENS), 1 if q else 2))
     # several children exiting between two wake-ups of their parent (default schedule: the parent parks, all children finish)
